@@ -18,8 +18,6 @@ theorem pin_frame_Reader_Initialize : Gen.src_frame_Reader_Initialize = Expect.s
 theorem pin_frame_Reader_Read : Gen.src_frame_Reader_Read = Expect.src_frame_Reader_Read := rfl
 theorem pin_frame_V2Frame_IsSigned : Gen.src_frame_V2Frame_IsSigned = Expect.src_frame_V2Frame_IsSigned := rfl
 theorem pin_frame_NewReader : Gen.src_frame_NewReader = Expect.src_frame_NewReader := rfl
-theorem pin_frame_hasEmptyBytes : Gen.src_frame_hasEmptyBytes = Expect.src_frame_hasEmptyBytes := rfl
-theorem pin_frame_removeEmptyBytes : Gen.src_frame_removeEmptyBytes = Expect.src_frame_removeEmptyBytes := rfl
 theorem pin_dialect_ReadWriter_Initialize : Gen.src_dialect_ReadWriter_Initialize = Expect.src_dialect_ReadWriter_Initialize := rfl
 theorem pin_dialect_ReadWriter_GetMessage : Gen.src_dialect_ReadWriter_GetMessage = Expect.src_dialect_ReadWriter_GetMessage := rfl
 end Mav.Pins.C02
